@@ -5,6 +5,7 @@ package scen
 import (
 	"fmt"
 	"math/rand"
+	"net"
 	"strings"
 	"sync"
 	"sync/atomic"
@@ -349,7 +350,7 @@ func runC07(c *Ctx) {
 	r := c.R
 	r.Assume("the proxy processes one client's frames sequentially, so the model state at send time is the state the request must run in, pipelined or not")
 	r.Assume("a USE failing because a host is down during a scripted restart is not judged (only histories without restarts demand success)")
-	r.Require("echoes_checked", "histories", "simultaneous_use_histories")
+	r.Require("echoes_checked", "histories", "simultaneous_use_histories", "late_host_histories")
 	n := c.Pick(120, 12000)
 	for i := 0; i < n; i++ {
 		if c.Replay != nil && c.Replay["kind"] == "c07" {
@@ -370,5 +371,113 @@ func runC07(c *Ctx) {
 		}
 		c07History(c, i, hosts, conns, clients, steps, i%5 == 4, i%3 == 0)
 	}
+	if c.Replay == nil {
+		for i := 0; i < c.Pick(12, 400); i++ {
+			if c.Mine(i) {
+				c07LateHost(c, i)
+			}
+		}
+	}
 	var _ = mon.Event{}
+}
+
+// c07LateHost: a host joins the cluster after the clients' sessions exist. Its connections, too, must be in each
+// session's keyspace and speak its version and compression: every request - whichever host it is routed to - is answered
+// from a connection whose attributes are the client's.
+func c07LateHost(c *Ctx, idx int) {
+	r := c.R
+	rng := c.Rng(77000 + idx)
+	scenario := map[string]interface{}{"kind": "c07-late-host", "idx": idx}
+	c.Step("c07 late host idx=%d", idx)
+	bed, err := px.NewBed(px.BedConfig{Hosts: 3, NumConns: 1 + idx%2, Keyspaces: c07Keyspaces, KeepBodies: true, MaxVersion: primitive.ProtocolVersionDse2, Unlisted: []int{3},
+		RefreshWindow: 20 * time.Millisecond, ReconnectBase: time.Millisecond, ReconnectMax: 3 * time.Millisecond})
+	if err != nil {
+		r.Inconc("c07 late host: cannot start bed: " + err.Error())
+		return
+	}
+	defer bed.Close()
+	type cspec struct {
+		ver  primitive.ProtocolVersion
+		comp string
+		ks   string
+	}
+	specs := []cspec{{4, "lz4", "ks1"}, {4, "snappy", "ks2"}, {3, "lz4", "ks1"}, {4, "", "ks3"}, {5, "lz4", ""}, {0x42, "snappy", "ks2"}}
+	var clients []*rawcql.Client
+	var cs []cspec
+	for i := 0; i < 3; i++ {
+		sp := specs[(idx+i)%len(specs)]
+		cl, err := bed.ReadyClient(sp.ver, sp.comp)
+		if err != nil {
+			r.Inconc("c07 late host: handshake: " + err.Error())
+			return
+		}
+		defer cl.Close()
+		if sp.ks != "" {
+			if f, err := cl.Call(1, &message.Query{Query: "USE " + sp.ks, Options: &message.QueryOptions{Consistency: primitive.ConsistencyLevelOne}}, 10*time.Second); err != nil || f.OpCode != primitive.OpCodeResult {
+				r.Inconc("c07 late host: USE failed")
+				return
+			}
+		}
+		// the session exists and works before the host joins
+		if _, err := cl.CallF(BuildRequest(sp.ver, 2, KQuery, true, NewTok(), primitive.ConsistencyLevelOne), 10*time.Second); err != nil {
+			r.Inconc("c07 late host: first request failed")
+			return
+		}
+		clients = append(clients, cl)
+		cs = append(cs, sp)
+	}
+	// the host joins
+	bed.Cluster.SetListed(3, true)
+	bed.Cluster.Emit(&message.TopologyChangeEvent{ChangeType: primitive.TopologyChangeTypeNewNode, Address: &primitive.Inet{Addr: net.ParseIP(bed.Cluster.HostIP(3)), Port: int32(bed.Cluster.Port)}})
+	sessions := len(bed.Proxy.VerifSessions())
+	if !waitFor(func() bool {
+		n := 0
+		for _, x := range bed.Cluster.Hosts[2].Conns() {
+			if !x.IsRegistered() && x.Ver() != 0 && !x.IsClosed() {
+				n++
+			}
+		}
+		return n >= sessions*(1+idx%2)
+	}, 15*time.Second) {
+		r.Inconc("c07 late host: the new host's pools were not connected (judged by C16)")
+		return
+	}
+	time.Sleep(30 * time.Millisecond)
+	reachedLate := 0
+	for ci, cl := range clients {
+		sp := cs[ci]
+		for k := 0; k < 12; k++ {
+			tok := NewTok()
+			kind := []ReqKind{KQuery, KBatch, KQuery}[k%3]
+			f, err := cl.CallF(BuildRequest(sp.ver, int16(10+k), kind, rng.Intn(2) == 0, tok, primitive.ConsistencyLevelOne), 15*time.Second)
+			r.Eval(1)
+			if err != nil || f == nil {
+				r.Violate(mon.Violation{Signature: "C07/no-reply/late-host", Detail: fmt.Sprintf("client v%d %q keyspace %q: request after a host joined got no reply", sp.ver, sp.comp, sp.ks), Scenario: scenario})
+				return
+			}
+			ri := DecodeReply(sp.comp, f)
+			if ri.Kind != "Rows" || !ri.HasEcho {
+				r.Violate(mon.Violation{Signature: "C07/data-request-failed/late-host", Detail: fmt.Sprintf("client v%d %q keyspace %q: request after a host joined answered %s %q (attempts: %s)", sp.ver, sp.comp, sp.ks, ri.Kind, ri.ErrMsg, describe(Traces(bed.Log.Snapshot())[tok])), Scenario: scenario})
+				return
+			}
+			r.Obs("echoes_checked", 1)
+			if ri.Echo.Host == 3 {
+				reachedLate++
+			}
+			if ri.Echo.Ks != sp.ks || ri.Echo.Ver != int(sp.ver) || ri.Echo.Comp != sp.comp {
+				r.Violate(mon.Violation{Signature: fmt.Sprintf("C07/wrong-connection-attributes/late-host/host=%d", ri.Echo.Host), Detail: fmt.Sprintf("client v%d compression %q keyspace %q: request executed on host %d on a connection with version %d compression %q keyspace %q", sp.ver, sp.comp, sp.ks, ri.Echo.Host, ri.Echo.Ver, ri.Echo.Comp, ri.Echo.Ks), Scenario: scenario})
+				return
+			}
+		}
+	}
+	r.Obs("late_host_histories", 1)
+	if reachedLate > 0 {
+		r.NonTrivial(fmt.Sprintf("late-host/%d", idx%12))
+	}
+	// the late host's own connections, as the backend saw them negotiated
+	for _, x := range bed.Cluster.Hosts[2].Conns() {
+		if !x.IsRegistered() && x.Ver() != 0 {
+			r.Obs("late_host_conn_comp:"+x.Comp(), 1)
+		}
+	}
 }
